@@ -282,7 +282,12 @@ def run(prop_id, tier='quick', seed=1, replay=None):
     if hasattr(mod, 'extra'):
         vs, info = mod.extra(tier, seed, total)
         extra_info = info or {}
-        handle(vs, None, None)
+        for v in vs:
+            # an extra part may attach the failing case: (V, case)
+            if isinstance(v, tuple):
+                handle([v[0]], v[1], None)
+            else:
+                handle([v], None, None)
     # 3. generated search
     b = mod.budget(tier)
     n = b.get('examples', 0)
